@@ -439,6 +439,9 @@ def _selection_patterns(fnode):
 def _truthiness_verdict(prog, M, T, fc, tested, fallback):
     """None if harmless, else the reason the selection can replace a valid value."""
     t = T.expr(tested, fc)
+    if not t and isinstance(tested, ast.Attribute) and tested.attr in ("text", "tail"):
+        # `.text` of an element reached dynamically (getattr by name): lxml's _Element.text / .tail are str | None
+        t = frozenset([("prim", "str"), ("prim", "NoneType")])
     if not t:
         return "the type of `%s` is unknown: a valid falsy value (0, 0.0, '') would be replaced by the fall-back" % ast.unparse(tested)
     fb = prog.const(fallback, fc.fn.module) if isinstance(fallback, ast.Constant) else Ellipsis
@@ -471,6 +474,10 @@ def _truthiness_verdict(prog, M, T, fc, tested, fallback):
                 continue
             continue  # foreign objects (PIL, xlsxwriter ...): not document values
         elif a[0] in ("list", "tuple", "dict"):
+            # `xs or ys` between collections asks "are there any items", which is what emptiness means: no value is lost
+            ft = T.expr(fallback, fc)
+            if ft and all(b[0] in ("list", "tuple", "dict") for b in ft):
+                continue
             return "`%s` can be an empty %s" % (ast.unparse(tested), a[0])
         elif a[0] in ("enum", "member"):
             return "`%s` can be an enumeration member whose value may be 0" % ast.unparse(tested)
